@@ -31,16 +31,16 @@ def optsets(tier, label):
     return O.corner_sets()
 
 
-def one(text, o):
+def one(text, o, comments=False):
     """returns (category, message, t1)"""
-    d0 = impl.loads(text)
+    d0 = impl.loads(text, include_comments=comments)
     t1 = impl.dumps(copy.deepcopy(d0), **o)
-    d1 = impl.loads(t1)
+    d1 = impl.loads(t1, include_comments=comments)
     snap = D.typed(D.strip_hidden(d1))
     t2 = impl.dumps(copy.deepcopy(d1), **o)
     if t2 != t1:
         return "not_idempotent", "second formatting pass changes the text: %r -> %r" % (first_diff(t1, t2)), t1
-    d2 = impl.loads(t2)
+    d2 = impl.loads(t2, include_comments=comments)
     if D.typed(D.strip_hidden(d2)) != snap:
         return "dict_changes", D.strict_diff(D.strip_hidden(d1), D.strip_hidden(d2)) or "dictionaries differ", t1
     # same dictionary and options -> same text, from a brand-new printer object
@@ -62,18 +62,20 @@ def first_diff(a, b):
 def run_docs(res, tier, shard, digest=None):
     docs = O.documents(tier)
     for label, text in docs[shard::NSHARD]:
-        d = O.load_or_none(text)
+        if label.startswith("RICHC"):
+            continue      # kept comments are outside C04: its loads is the plain one (END comments would be re-read as comments)
+        d = O.load_or_none(text, label)
         if d is None:
             R.add_outcome(res, "unparsed")
             continue
         strs = list(strings_of(d))
-        if any('"' in s or "'" in s for s in strs):
+        if any('"' in s or "'" in s for s in strs) and not label.startswith("EXPR"):
             R.add_outcome(res, "excluded_quote")
             continue
         for o in optsets(tier, label):
             res["evals"] += 1
             try:
-                cat, msg, t1 = one(text, o)
+                cat, msg, t1 = one(text, o, label.startswith("RICHC"))
             except Exception as e:
                 cat, msg, t1 = "exc:" + impl.exc_name(e), str(e)[:200], ""
             if cat is None:
@@ -81,23 +83,25 @@ def run_docs(res, tier, shard, digest=None):
                 res["states"].add(R.h64(t1))
             else:
                 R.add_outcome(res, cat)
-                R.add_violation(res, "%s|%s|%s" % (cat, O.oname(o) if cat != "not_idempotent" or True else "", label), msg, {"text": text, "options": o},
+                R.add_violation(res, "%s|%s|%s" % (cat, O.oname(o), label), msg, {"text": text, "options": o, "comments": label.startswith("RICHC")},
                                 {"message": msg})
     R.add_sub(res, "documents x option sets", res["evals"])
     if shard == 0 and docs:
         R.add_sample(res, {"document": docs[0][0], "options": O.corner_sets()[5]}, 1)
 
 
-def space_digest(tier):
-    """digest of every formatted text of a fixed sub-space (rich + S4 documents x corner sets)"""
-    h = hashlib.sha256()
-    n = 0
-    for label, text in O.documents("quick"):
-        if not label.startswith(("RICH", "S4")):
-            continue
+def space_digest(tier, reverse=False):
+    """per-document digest of every formatted text of a fixed sub-space (rich + S4 + NUM documents x corner sets);
+    reverse=True visits the documents in the opposite order (the text must not depend on what was printed before)"""
+    out = {}
+    docs = [(l, t) for l, t in O.documents("quick") if l.startswith(("RICH ", "S4", "NUM", "EXPR"))]
+    if reverse:
+        docs = docs[::-1]
+    for label, text in docs:
         d = O.load_or_none(text)
         if d is None:
             continue
+        h = hashlib.sha256()
         for o in O.corner_sets():
             try:
                 t = impl.dumps(copy.deepcopy(d), **o)
@@ -105,8 +109,8 @@ def space_digest(tier):
                 t = "EXC " + type(e).__name__
             h.update(t.encode("utf-8", "surrogatepass"))
             h.update(b"\0")
-            n += 1
-    return h.hexdigest(), n
+        out[label] = h.hexdigest()
+    return out
 
 
 def run_unit(unit):
@@ -114,34 +118,40 @@ def run_unit(unit):
     if unit[0] == "DOCS":
         run_docs(res, unit[1], unit[2])
         return res
-    # second process, different hash seed
-    mine, n = space_digest(unit[1])
-    outs = []
-    for seed in ("1", "987654"):
+    # other processes: different hash seeds, and the documents visited in the opposite order
+    import json
+
+    mine = space_digest(unit[1])
+    n = len(mine) * len(O.corner_sets())
+    for seed, rev in (("1", False), ("987654", True), ("0", True)):
         env = dict(os.environ, PYTHONHASHSEED=seed)
-        p = subprocess.run([sys.executable, "-c", "from mcf.props import c04; print(c04.space_digest('quick')[0])"],
-                           cwd=R.VERIF, env=env, capture_output=True, text=True, timeout=600)
-        outs.append(p.stdout.strip().splitlines()[-1] if p.stdout.strip() else "ERR " + p.stderr[-200:])
-    res["evals"] += n * 3
-    for seed, o in zip(("1", "987654"), outs):
-        if o != mine:
-            R.add_violation(res, "hashseed|%s" % seed, "formatted output differs between processes with different PYTHONHASHSEED (%s vs %s)" % (mine[:12], o[:40]),
-                            {"hashseed": seed}, None)
+        p = subprocess.run([sys.executable, "-c", "import json; from mcf.props import c04; print(json.dumps(c04.space_digest('quick', %s)))" % rev],
+                           cwd=R.VERIF, env=env, capture_output=True, text=True, timeout=900)
+        try:
+            other = json.loads(p.stdout.strip().splitlines()[-1])
+        except Exception:
+            other = {"ERR": p.stderr[-200:]}
+        res["evals"] += n
+        bad = sorted(k for k in set(mine) | set(other) if mine.get(k) != other.get(k))
+        if bad:
+            R.add_violation(res, "process|hashseed=%s reverse=%s|%s" % (seed, rev, bad[0]),
+                            "the same dictionary and options give different text in another process (PYTHONHASHSEED=%s, documents visited in %s order): %s" % (
+                                seed, "reverse" if rev else "the same", bad[:4]), {"hashseed": seed, "reverse": rev}, None)
         else:
-            R.add_outcome(res, "same_digest_other_hashseed")
-    res["states"].add(R.h64(mine))
-    R.add_sub(res, "cross-process determinism (3 hash seeds)", n * 3)
+            R.add_outcome(res, "same_text_in_other_process")
+    res["states"].add(R.h64(json.dumps(mine, sort_keys=True)))
+    R.add_sub(res, "cross-process determinism (hash seeds 0/1/987654, forward and reverse document order)", n * 4)
     return res
 
 
 def describe(tier):
     return {"rule": "case = (document, option set), run as format -> parse -> format -> parse; state = distinct formatted text",
             "bounds": {"documents": len(O.documents(tier)), "option_sets": "720 on rich documents, 120 corner sets elsewhere" if tier == "quick" else "720 everywhere",
-                       "hash_seeds": [0, 1, 987654]}}
+                       "hash_seeds": [0, 1, 987654], "document_orders": ["forward", "reverse"]}}
 
 
 def replay(case):
     if "hashseed" in case:
         return None
-    cat, msg, _ = one(case["text"], case["options"])
+    cat, msg, _ = one(case["text"], case["options"], case.get("comments", False))
     return {"category": cat, "message": msg} if cat else None
